@@ -78,10 +78,11 @@ def run(ctx):
                 "non-default floor / window / cut-off) evaluated on sweeps of temperature (inside, at and outside the window), "
                 "velocity (1e2..1e9 mm/hr, spanning laminar to turbulent) and radius (2..50 mm). one case = one (fluid, T, u, r); "
                 "non-trivial = T outside the window or Re within a decade of the cut-off")
-    ctx.trusted += ["independent float evaluation of the Gnielinski expression (log, real powers) supplies gn; its monotonicity in Re "
-                    "on the documented box is validated on a 400 x 60 grid, not proved",
+    ctx.trusted += ["independent float evaluation of the Gnielinski expression (log, real powers) supplies gn; its monotonicity in Re is "
+                    "proved over R for Pr >= 1 and Re >= 1000 (C18_gnielinski.v) and validated on a 400 x 60 grid for Pr in [0.1, 1)",
                     "JAX evaluation of polynomials and jnp.where/maximum"]
     ctx.prove("C18")
+    ctx.prove("C18_gnielinski")
     if ctx.tier == "thorough":
         ctx.coqchk("C18")
     rng = ctx.rng
@@ -134,6 +135,9 @@ def run(ctx):
             near = 0.1 < re / P["laminar_cutoff"] < 10
             ctx.case((c["id"], Th, uh, rh), outside or near)
             ctx.count("laminar" if re < P["laminar_cutoff"] else "turbulent")
+            if re >= P["laminar_cutoff"]:
+                # where the monotonicity theorem C18_gnielinski_monotone_in_reynolds applies (Pr >= 1, Re >= 1000)
+                ctx.count("turbulent, Pr>=1 (proved monotone)" if pr >= 1.0 and re >= 1000.0 else "turbulent, Pr<1 (validated on the grid only)")
             got = {k: uv(v) for k, v in row.items()}
             films.append(got["film"])
             def bad(msg):
